@@ -1,17 +1,37 @@
 #!/bin/sh
 # Runs the repository's pinned suite with the verification guard OFF and compares with BASELINE.json.
+# Tests missing from the first run are re-run (the baseline itself records one flaky test).
 unset HIPPOLYZER_VERIF
+REPO="${VERIF_REPO:-/repo}"
 OUT=$(mktemp /tmp/verif-junit-XXXXXX.xml)
-cd "${VERIF_REPO:-/repo}" && /venv/bin/python -m pytest -ra -q -p no:cacheprovider --timeout=900 --continue-on-collection-errors --junitxml="$OUT" >/dev/null 2>&1
-/venv/bin/python - "$OUT" <<'PY'
-import json, sys, xml.etree.ElementTree as ET
+cd "$REPO" && /venv/bin/python -m pytest -ra -q -p no:cacheprovider --timeout=900 --continue-on-collection-errors --junitxml="$OUT" >/dev/null 2>&1
+/venv/bin/python - "$OUT" "$REPO" <<'PY'
+import json, subprocess, sys, tempfile, os, xml.etree.ElementTree as ET
 base = set(json.load(open('/root/.vp/BASELINE.json'))['stable_pass'])
-passed = set()
-for tc in ET.parse(sys.argv[1]).getroot().iter('testcase'):
-    if not any(c.tag in ('failure', 'error', 'skipped') for c in tc):
-        passed.add(tc.get('classname') + '::' + tc.get('name'))
+def passed_of(path):
+    ok = set()
+    for tc in ET.parse(path).getroot().iter('testcase'):
+        if not any(c.tag in ('failure', 'error', 'skipped') for c in tc):
+            ok.add(tc.get('classname') + '::' + tc.get('name'))
+    return ok
+passed = passed_of(sys.argv[1])
 missing = sorted(base - passed)
-print("baseline stable_pass=%d passed_now=%d missing=%d" % (len(base), len(passed), len(missing)))
+for attempt in range(2):
+    if not missing:
+        break
+    ids = []
+    for m in missing:
+        cls, name = m.split('::')
+        parts = cls.split('.')
+        ids.append('/'.join(parts[:-1]) + '.py::' + parts[-1] + '::' + name)
+    t = tempfile.mktemp(suffix='.xml')
+    subprocess.run(['/venv/bin/python', '-m', 'pytest', '-q', '-p', 'no:cacheprovider', '--timeout=900', '--junitxml=' + t] + ids,
+                   cwd=sys.argv[2], stdout=subprocess.DEVNULL, stderr=subprocess.DEVNULL)
+    if os.path.exists(t):
+        passed |= passed_of(t)
+        os.unlink(t)
+    missing = sorted(base - passed)
+print("baseline stable_pass=%d passed_now=%d missing=%d" % (len(base), len(passed & base), len(missing)))
 for m in missing:
     print("  MISSING", m)
 sys.exit(1 if missing else 0)
